@@ -9,7 +9,7 @@ from gunicorn.http import RequestParser
 
 PROPERTY = "C07"
 RULE = ("body (pattern x length, newline-dense, lengths biased to 0/1/1023/1024/1025/2048/8191-8193/65535-65537/140000) x framing "
-        "(Content-Length | chunked with drawn chunk layout, extensions, trailers) x program of read/readline/readlines/"
+        "(Content-Length | chunked with drawn chunk layout, extensions (also on the last chunk: 000, 0;a=b, 0 ;x), trailers) x program of read/readline/readlines/"
         "iteration calls with sizes in {None,-1,0,1,2,small,1023,1024,1025,8192,10**6} x segmentation x drain-or-not, "
         "followed by a pipelined request (body up to 1500 bytes), under the default and two tightened limit_request_* configs; oracle = call-by-call io.BytesIO, EOF forever, next request parsed with "
         "equal fields and body. non-trivial = program uses >=2 call kinds or stops before EOF; distinct by case hash")
@@ -42,6 +42,8 @@ def strategy(tier):
         "chunks": st.lists(st.sampled_from([1, 2, 3, 5, 16, 255, 1023, 1024, 1025, 4096, 100000]), min_size=1, max_size=4),
         "ext": st.sampled_from(["", "", ";a=b", " ;x"]),
         "trailer": st.sampled_from(["", "", "X-T: v\r\n"]),
+        # RFC 9112 7.1: last-chunk = 1*"0" [chunk-ext] CRLF
+        "last": st.sampled_from(["0", "0", "0", "000", "0;a=b", "0 ;x", "00;q=\"v\""]),
         "program": st.lists(op, min_size=0, max_size=8).map(lambda l: [list(x) for x in l]),
         "segs": st.lists(st.sampled_from([1, 2, 3, 7, 100, 1023, 1024, 1025, 4096, 8192]), min_size=1, max_size=4),
         "drain": st.booleans(),
@@ -154,7 +156,7 @@ def build(case):
             out.append(b"%x%s\r\n" % (sz, ext if k % 2 == 0 else b"") + body[i:i + sz] + b"\r\n")
             i += sz
             k += 1
-        out.append(b"0\r\n" + case["trailer"].encode() + b"\r\n")
+        out.append(case.get("last", "0").encode() + b"\r\n" + case["trailer"].encode() + b"\r\n")
         enc = b"".join(out)
     nb = case["next_body"].encode("latin-1")
     nxt = b"PUT /next?q=1 HTTP/1.1\r\nHost: h2\r\nX-Marker: m\r\nContent-Length: %d\r\n\r\n" % len(nb) + nb
